@@ -88,3 +88,95 @@ Theorem C13_loopback : forall name port family ai,
   (ARES_SUCCESS, mkAI (Some name) (spec_loopback family port (ai_nodes ai)) (ai_cnames ai)).
 Proof. exact localhost_spec. Qed.
 Print Assumptions C13_loopback.
+
+(* ===================== end-to-end half (coq/Legacy/Gai.v) ===================== *)
+(* Models ares_getaddrinfo / ares_gethostbyname / ares_gethostbyaddr above the query layer,
+   for the code WITH fixes/C13-gai-family-restrict.patch.  Inputs from other layers: the outcome
+   of every sub-query, the candidate names (one [round] per name queried), inet_pton, the port,
+   the tokenised hosts file. *)
+From CAres.Legacy Require Import Gai Gai_proofs.
+
+(* merge of the A and AAAA sub-queries of one name: exactly the address records of the
+   accepted answers, family-restricted, in arrival order; success only with an address *)
+Theorem C13_merge_exact : forall family port sl arrivals remaining ai nodata d ai' nodata',
+  (1 <= remaining)%nat ->
+  Forall qres_wf (firstn remaining arrivals) ->
+  Forall (fun nd => wanted family nd = true) (ai_nodes ai) ->
+  run_round family port sl arrivals remaining ai nodata = Ok (d, ai', nodata') ->
+  ai_nodes ai' = ai_nodes ai ++ flat_map (answer_nodes family port) (firstn remaining arrivals) /\
+  match d with
+  | DEnd st => st = ARES_SUCCESS -> ai_nodes ai' <> []
+  | DNext _ => ai_nodes ai' = []
+  end.
+Proof. exact run_round_spec. Qed.
+Print Assumptions C13_merge_exact.
+
+(* ares_getaddrinfo as a whole: success means the nodes of exactly one source - the literal,
+   or the first source of the lookup string that has an address: hosts entry / loopback rule,
+   or the first candidate name whose accepted answers carry an address of the family *)
+Theorem C13_getaddrinfo_exact : forall hf lookups name family port flags p4 p6 rounds ai,
+  Forall (round_wf family) rounds ->
+  getaddrinfo hf lookups name family (Some port) flags p4 p6 ARES_SUCCESS rounds = Ok (ARES_SUCCESS, Some ai) ->
+  match fake_addrinfo name family port flags p4 p6 with
+  | Some lit => ai = lit
+  | None => ai_nodes ai = spec_lookup_nodes hf name family port lookups rounds /\ ai_nodes ai <> []
+  end.
+Proof. exact getaddrinfo_exact. Qed.
+Print Assumptions C13_getaddrinfo_exact.
+
+Theorem C13_getaddrinfo_failure : forall hf lookups name family port flags p4 p6 ns rounds st r,
+  getaddrinfo hf lookups name family port flags p4 p6 ns rounds = Ok (st, r) -> st <> ARES_SUCCESS -> r = None.
+Proof. exact getaddrinfo_failure. Qed.
+Print Assumptions C13_getaddrinfo_failure.
+
+(* nothing invented by a DNS round / by the hosts file *)
+Theorem C13_round_nodes_sound : forall family port r nd, In nd (round_nodes family port r) ->
+  exists rec, In (QOk rec) (r_arrivals r) /\ In nd (spec_nodes port (r_answers rec)) /\ wanted family nd = true.
+Proof. exact round_nodes_sound. Qed.
+Print Assumptions C13_round_nodes_sound.
+
+Theorem C13_hosts_nodes_sound : forall lines name family port nd,
+  In nd (spec_hosts_nodes (hosts_build lines) name family port) ->
+  exists l, In l lines /\ hl_ip l = (n_family nd, n_addr nd) /\ n_port nd = port /\ n_ttl nd = 0 /\ wanted family nd = true.
+Proof. exact hosts_nodes_sound. Qed.
+Print Assumptions C13_hosts_nodes_sound.
+
+(* hosts entry -> nodes: the loop of ares_hosts_entry_to_addrinfo is the family filter *)
+Theorem C13_hosts_entry_nodes : forall ips family port acc,
+  entry_nodes ips family port acc =
+  acc ++ map (fun ip => mkNode (fst ip) (snd ip) port 0)
+             (filter (fun ip => (family =? LEG_AF_UNSPEC) || (family =? fst ip)) ips).
+Proof. exact entry_nodes_spec. Qed.
+Print Assumptions C13_hosts_entry_nodes.
+
+(* literals *)
+Theorem C13_literal_node : forall name family port flags p4 p6 ai,
+  fake_addrinfo name family port flags p4 p6 = Some ai ->
+  exists a, (ai_nodes ai = [mkNode LEG_AF_INET a port 0] /\ p4 = Some a) \/
+            (ai_nodes ai = [mkNode LEG_AF_INET6 a port 0] /\ p6 = Some a /\ family <> LEG_AF_INET).
+Proof. exact literal_node. Qed.
+Print Assumptions C13_literal_node.
+
+(* full statement would add "family <> AF_INET6" to the first alternative; the code accepts a
+   dotted quad for AF_INET6 (finding wrong-family-literal) *)
+Theorem C13_literal_family_refuted :
+  exists name p4 ai, fake_addrinfo name LEG_AF_INET6 0 0 (Some p4) None = Some ai /\
+                     ai_nodes ai = [mkNode LEG_AF_INET p4 0 0].
+Proof. exact literal_family_refuted. Qed.
+Print Assumptions C13_literal_family_refuted.
+
+(* reverse lookups: the only name ever queried is the reverse-map name; the names returned are
+   the PTR targets of the accepted answer *)
+Theorem C13_ghba_queries_rfc_name : forall hf family addr, addr_ok family addr ->
+  forall lookups answers queried0 q st hv,
+  ghba_lookup hf family addr lookups answers queried0 = Ok (q, st, hv) ->
+  exists k, q = queried0 ++ repeat (rfc_name family addr) k.
+Proof. exact ghba_queries_rfc_name. Qed.
+Print Assumptions C13_ghba_queries_rfc_name.
+
+Theorem C13_ghba_names : forall hf family addr rest rec more q qs, addr_ok family addr -> r_questions rec = q :: qs ->
+  exists st hv, gethostbyaddr hf (LB :: rest) family addr (QOk rec :: more) = Ok ([rfc_name family addr], st, hv) /\
+    (st, match hv with Some v => VHost v | None => VNull end) =
+    spec_ptr rec (Some addr) (Z.of_nat (length addr)) family.
+Proof. exact ghba_names. Qed.
+Print Assumptions C13_ghba_names.
